@@ -158,6 +158,8 @@ struct Ctx<'a> {
     log: H64,
     viol: Vec<Violation>,
     accepted_faulty: u64,
+    /// deliveries of this scenario so far (decides where the next datagram sits in memory)
+    deliveries: u64,
 }
 
 impl Ctx<'_> {
@@ -184,6 +186,14 @@ impl Ctx<'_> {
     /// the fault-free delivery).
     fn deliver(&mut self, bytes: &[u8], d: Option<&Delivery>, must_reject: bool, sig: &str) {
         self.stats.executions += 1;
+        // the datagram sits at a varying offset of a fresh allocation: its address modulo 4 cycles
+        // through 0..3 (a decoder may not assume word alignment of a network buffer)
+        let off = (self.deliveries % 4) as usize;
+        self.deliveries += 1;
+        let mut holder = Vec::with_capacity(bytes.len() + off);
+        holder.resize(off, 0xEE);
+        holder.extend_from_slice(bytes);
+        let bytes: &[u8] = &holder[off..];
         let res = catch(|| Chunk::try_from(bytes));
         let res = match res {
             Ok(r) => r,
@@ -496,13 +506,27 @@ impl Check for C03Check {
     }
 
     fn run(&self, scenario: &Value, stats: &mut Stats) -> Outcome {
+        // environment seam (see senv.rs): half of the scenarios run with fabricated variables
+        struct EnvGuard;
+        impl Drop for EnvGuard {
+            fn drop(&mut self) {
+                crate::senv::set_env_schedule(None);
+            }
+        }
+        let _env_guard = {
+            let mut h = simcore::H64::new();
+            h.str(&scenario.to_string());
+            let v = h.finish();
+            crate::senv::set_env_schedule(if v & 1 == 0 { Some(v) } else { None });
+            EnvGuard
+        };
         let scn: Scn = serde_json::from_value(scenario.clone()).expect("C03 scenario");
         let base = scn.spec().encode();
         let declared = scn.payload.len;
         let nbits = base.len() * 8;
         let mut log = H64::new();
         log.bytes(&base);
-        let mut cx = Ctx { scn: &scn, base: &base, stats, log, viol: vec![], accepted_faulty: 0 };
+        let mut cx = Ctx { scn: &scn, base: &base, stats, log, viol: vec![], accepted_faulty: 0, deliveries: 0 };
         // I1: fault-free delivery
         cx.deliver(&base, None, false, "fault-free");
         let mut fired = 0u64;
